@@ -71,6 +71,7 @@ func init() {
 			ruleContextChain(c, "C03.11")
 			ruleCloseSafety(c, "C03.12")
 			ruleLockBalance(c, "C03.13")
+			ruleEveryFrameKindHandled(c, "C03.14")
 		},
 		Explain:    "Static necessary conditions of RPC independence: the effect set reachable on each receive loop's own goroutine (over resolved call edges minus go sites, restricted to code that continues the loop) contains no carrier send, blocking channel operation, cond/WaitGroup wait or user callback; every lock the loops take is short (no such effect anywhere while it may be held; frozen exceptions named); tunnel-level termination is reachable only for Recv failure / never-created id / reused id; stream-level rejections are recorded in the high-water mark before returning; window updates never run on a loop goroutine or under the receiver's lock. Liveness ('never indefinitely delays') is not decided.",
 		Assume:     []string{"a conforming peer's receive loop never waits on us (needed for the server write-mutex exception)", "VTA call graph over-approximates dynamic calls", "external callees are summarised (context, metadata, status, list: non-blocking)"},
